@@ -71,7 +71,10 @@ def _pattern(draw):
     # outages: the peer resets the link 1.5 s before heartbeat k and refuses one reconnection attempt,
     # so the client is disconnected at the heartbeat instant and back 0.5 s later
     outs = sorted(draw(st.sets(st.integers(1, n), max_size=2)))
-    return {"n": n, "delays": ds[: n + 3], "unsolicited": sorted(uns), "shape": shape, "decoys": sorted(decoys), "outages": outs}
+    # the pattern is applied either to a fresh client or after shutdown() + init() of the same object
+    reinit = draw(st.integers(0, 3)) == 0
+    return {"n": n, "delays": ds[: n + 3], "unsolicited": sorted(uns), "shape": shape, "decoys": sorted(decoys), "outages": outs,
+            "reinit": reinit}
 
 
 def timeline(t0: float, interval: float, timeout: float, delays, unsolicited, t_end: float, outages=()):
@@ -131,14 +134,25 @@ def check_api(gen: int, pat, inst, state, stats: Stats | None):
     def bad(key, what):
         raise Violation(f"C08:{key}", what, case)
 
-    beh = {"version_req": [{}] + [({"skip": True} if d is None else {"delay": d}) for d in pat["delays"]]}
+    pre = [{}, {}, {}] if pat.get("reinit") else [{}]   # handshake (+ first heartbeat and second handshake when re-initialising)
+    beh = {"version_req": pre + [({"skip": True} if d is None else {"delay": d}) for d in pat["delays"]]}
     rig = ApiRig(inst, state, beh)
     try:
         r = rig.run_init()
         if r != ("ok", True):
             bad("init", f"init failed: {r!r}")
+        if pat.get("reinit"):
+            rig.loop.advance(7.0)
+            o = rig.loop.call(rig.at.shutdown())
+            if o[0] != "ok":
+                bad("shutdown", f"shutdown(): {o!r}")
+            rig.loop.advance(13.0)
+            r = rig.run_init()
+            if r != ("ok", True):
+                bad("reinit", f"init() after shutdown failed: {r!r}")
         t0 = rig.loop.time()
         c = rig.console
+        n_ver0 = len([1 for q in c.requests if q[2] == "version_req"]) - 1
         t_end = t0 + pat["n"] * 300.0 + 700.0
         outages = [(t0 + k * 300.0 - 1.5, t0 + k * 300.0 + 0.5) for k in pat.get("outages", ())]
         model = timeline(t0, 300.0, 330.0, pat["delays"], [t0 + u for u in pat["unsolicited"]], t_end, outages)
@@ -172,8 +186,8 @@ def check_api(gen: int, pat, inst, state, stats: Stats | None):
         for s_, _e in outages:
             rig.loop.call_at(s_, outage)
         rig.loop.advance(t_end - t0)
-        got_req = [t for (t, _cid, kind, _p, _f) in c.requests if kind == "version_req"][1:]
-        got_resets = [e[0] for e in rig.net.log if e[1] == "closed" and e[3] == "client"]
+        got_req = [t for (t, _cid, kind, _p, _f) in c.requests if kind == "version_req"][n_ver0:]
+        got_resets = [e[0] for e in rig.net.log if e[1] == "closed" and e[3] == "client" and e[0] >= t0]
         _judge(bad, exp_req, exp_resets, got_req, got_resets, rig.net, t_end)
         if rig.loop.unhandled or harness.unhandled_task_errors():
             bad("unhandled", f"unhandled exception: {(rig.loop.unhandled or harness.unhandled_task_errors())[0]}")
@@ -223,6 +237,8 @@ def _record(stats, case, pat, exp_resets, tag):
         classes.append("outage-at-heartbeat")
     if pat.get("decoys") and tag.startswith("api"):
         classes.append("decoys")
+    if pat.get("reinit") and tag.startswith("api"):
+        classes.append("after-reinit")
     if ds and ds[0] is None:
         classes.append("silent-from-first")
     if len(exp_resets) >= 2:
@@ -314,7 +330,7 @@ def shards(tier: str):
 
 
 def floors(tier: str):
-    return {"silent-from-first": 10, "silence-after-reset": 20, "resets:0": 40, "resets:1": 10, "outage-at-heartbeat": 50, "decoys": 50}
+    return {"silent-from-first": 10, "silence-after-reset": 20, "resets:0": 40, "resets:1": 10, "outage-at-heartbeat": 50, "decoys": 50, "after-reinit": 30}
 
 
 def run_shard(spec, seed: int, tier: str):
